@@ -267,8 +267,10 @@ def replay_dispatch(which, rng=None):
                 kw['early'] = True
             if out_flag:
                 kw['outgoing'] = True
-            Connection.register_packet_listener(conn, cb, *types_, **kw)
-            expected_groups[(early, out_flag)].append((idx, types_, beh))
+            # now and then the very same registration is made twice (same callback, same types, same stage): two listeners
+            for _rep in range(2 if rng.random() < 0.2 else 1):
+                Connection.register_packet_listener(conn, cb, *types_, **kw)
+                expected_groups[(early, out_flag)].append((idx, types_, beh))
             idx += 1
         # later rounds prefer a class that has been dispatched before (what a cache would key on)
         cls = rng.choice(sent) if sent and rng.random() < 0.6 else rng.choice([PA, PB, PC, Packet])
@@ -313,7 +315,13 @@ class Register(Unit):
         E = I.E
         conn = harness_connection()
         names = ('packet_listeners', 'early_packet_listeners', 'outgoing_packet_listeners', 'early_outgoing_packet_listeners')
-        pre = {n: ['x%d' % i for i in range(k)] for k, n in enumerate(names)}
+        cb = lambda p: None
+        # the lists already hold listeners - among them, possibly, one registered earlier with the SAME callback and the same
+        # types (an application's set-up routine that runs again before a reconnect): registering is appending, every
+        # registration is a listener of its own (seeded change C13-r9: "the same" listener silently dropped)
+        dup = bool(E.fork(2, 'registered-before'))
+        pre = {n: [PacketListener(lambda p: None, PC) for i in range(k)] + ([PacketListener(cb, PA, PC)] if dup else [])
+               for k, n in enumerate(names)}
         for n in names:
             conn.__dict__[n] = list(pre[n])
         e = E.fork(3, 'early')
@@ -323,18 +331,18 @@ class Register(Unit):
             kw['early'] = (e == 2)
         if o:
             kw['outgoing'] = (o == 2)
-        cb = lambda p: None
         I.call(raw(Connection, 'register_packet_listener'), conn, cb, PA, PC, **kw)
         target = {(False, False): 'packet_listeners', (True, False): 'early_packet_listeners',
                   (False, True): 'outgoing_packet_listeners', (True, True): 'early_outgoing_packet_listeners'}[(e == 2, o == 2)]
         for n in names:
             lst = conn.__dict__[n]
             if n == target:
-                ok = lst[:-1] == pre[n] and len(lst) == len(pre[n]) + 1 and isinstance(lst[-1], PacketListener) and \
+                same = lambda a, b: len(a) == len(b) and all(x is y for x, y in zip(a, b))
+                ok = same(lst[:-1], pre[n]) and len(lst) == len(pre[n]) + 1 and isinstance(lst[-1], PacketListener) and \
                     lst[-1].callback is cb and lst[-1].packets_to_listen == [PA, PC]
                 E.check('register.appended', ok, note='appended at the end of the list selected by (early, outgoing)')
             else:
-                E.check('register.others-unchanged', lst == pre[n])
+                E.check('register.others-unchanged', len(lst) == len(pre[n]) and all(x is y for x, y in zip(lst, pre[n])))
         return None
 
     def replay(self, model, label):
@@ -483,6 +491,13 @@ def replay_register():
                     if not ok:
                         return dict(confirmed=True, n=n, call='listener registered via %s with %r' % (via, kw),
                                     observed='list %s is wrong afterwards (expected the new listener at the end of %s only)' % (v, target))
+                # the very same registration once more: a second listener
+                k0 = len(getattr(c, target))
+                c.register_packet_listener(f, PA, PC, **kw)
+                if len(getattr(c, target)) != k0 + 1:
+                    return dict(confirmed=True, n=n, call='the same callback registered twice with the same types and %r' % (kw,),
+                                observed='list %s has %d entries after the second registration, expected %d'
+                                         % (target, len(getattr(c, target)), k0 + 1))
     return dict(confirmed=False, n=n, call='listener registration', observed='conforms')
 
 
